@@ -104,6 +104,24 @@ func (s *Storage) SetObjectFormat(of formatcfg.ObjectFormat) error {
 	return nil
 }
 
+// Module returns the storage of the given submodule. It is created with the
+// object format of this storage (a sub-storage made by the embedded
+// ModuleStorage alone would always be SHA-1).
+func (s *Storage) Module(name string) (storage.Storer, error) {
+	if m, ok := s.ModuleStorage[name]; ok {
+		return m, nil
+	}
+
+	var opts []StorageOption
+	if s.options.objectFormat != formatcfg.UnsetObjectFormat {
+		opts = append(opts, WithObjectFormat(s.options.objectFormat))
+	}
+	m := NewStorage(opts...)
+	s.ModuleStorage[name] = m
+
+	return m, nil
+}
+
 // SupportsExtension checks whether the Storer supports the given
 // Git extension defined by name.
 func (s *Storage) SupportsExtension(name, value string) bool {
